@@ -524,7 +524,7 @@ Section TotalForce.
     let ft3 :=
       if cv_subtract cv && negb (cv_samestep cv) && measured_lagged then ft2 - st_fold s else ft2 in
     let f := applied_force cv apply fb fj in
-    let fold := if cv_subtract cv then f else st_fold s in      (* end_of_step, at every step *)
+    let fold := f in      (* end_of_step records f at every step, also while subtractAppliedForce is off (it may be switched on by script) *)
     (* communicate_forces runs only while a bias applies a force to the variable *)
     (mkCvstate pos fj ft3 fold (S (st_rel s)) (cv_hide cv && apply),
      mkCvout ft3 f (if apply then cv_apply mass pos cv f else fzero)).
